@@ -116,6 +116,9 @@ def base_tolerance(spec: dict, dtype: str, J: np.ndarray, w_norm: float, x_norm:
         c = cond_full_row_rank(J) or 1.0
         amp = 1.0 / max(imtlg_balance(J), 1e-3) if name == "IMTLG" else 1.0
         return K * (m + n) * eps * c**2 * amp * max(x_norm, s) + 1e-300
+    if name == "Krum":
+        # plain average of k rows: error relative to the largest row norm (see C11)
+        return K * eps * float(np.linalg.norm(J, axis=1).max(initial=0.0)) * 4 + 1e-300
     return K * (m + n) * eps * s * w + 1e-300
 
 
